@@ -1,6 +1,6 @@
 SPECIFICATION Spec
 CONSTANTS
-  Levels = {0, 1}
+  Levels = {0, 1, 2, 3, 5}
   Obs <- ObsEmit
 INVARIANTS TypeOK LevelZeroIsSoft SoftAlwaysAllowed
 CHECK_DEADLOCK FALSE
